@@ -1,1 +1,193 @@
-import PulserModel.Sequence
+/-
+  C09 — A sequence is exactly the effect of its successful calls.
+
+  `stepRaw` (PulserModel/Sequence.lean) follows the Python statement order and returns the
+  state *as the object is left* when a call raises, so atomicity is a statement about the
+  model that can fail — and does, for the (operation, error) pairs listed as known
+  findings F2.x: those are excluded here by `early`, and exhibited by the
+  `…_not_atomic` counterexamples below (replayed on the implementation by the harness).
+-/
+import Proofs.Atomic
+import Proofs.SeqInv
+namespace Pulser
+namespace C09
+
+def isQuery : Op → Bool
+  | .getDuration .. | .estimate .. | .phaseRef .. => true
+  | _ => false
+
+/-- **Read-only operations never change the sequence** (duration and delay-estimate
+queries, phase-reference look-ups), whether they return or raise. -/
+theorem query_pure (s : SeqState) (op : Op) (h : isQuery op = true) : (stepRaw s op).st = s := by
+  cases op <;> simp [isQuery] at h
+  · simp only [stepRaw]; repeat' split
+    all_goals rfl
+  · simp only [stepRaw]
+    repeat' split
+    all_goals first | rfl | exact estimateCore_st _ _ _ _
+  · simp only [stepRaw]; repeat' split
+    all_goals rfl
+
+/-- Errors that are raised before the first mutation of the call, per operation.  The
+complement is exactly the set of known findings F2.x (mutation before validation), plus
+`noBasis`/`unknownQubit` after a pulse was appended, which no reachable state produces. -/
+def early (op : Op) (e : Err) : Bool :=
+  match op with
+  | .declare _ _ none | .configDetMap .. | .measure .. | .phaseShift .. => true
+  | .add .. | .addDmm .. | .addEom .. => e != .noBasis && e != .unknownQubit
+  | .target .. => !e.isSched
+  | _ => false
+
+theorem store_st_of_err {op : Op} {r : Raw} {e : Err} (h : (store op r).err = some e) :
+    r.err = some e ∧ (store op r).st = r.st := by
+  unfold store at h ⊢
+  cases hr : r.err with
+  | none => simp [hr] at h
+  | some e1 => simp [hr] at h ⊢; exact h
+
+theorem markNonEmpty_st_of_err {r : Raw} {e : Err} (h : (markNonEmpty r).err = some e) :
+    r.err = some e ∧ (markNonEmpty r).st = r.st := by
+  unfold markNonEmpty at h ⊢
+  cases hr : r.err with
+  | none => simp [hr] at h
+  | some e1 => simp [hr] at h ⊢; exact h
+
+/-- **A call that raises leaves the sequence exactly as it was** — for every operation
+and error class in `early`: all errors of `add` / `add_eom_pulse` / `add_dmm_detuning`
+(typestate, protocol, phase references, every limit, duration and over-long-sequence
+error), of `measure`, `phase_shift`, `config_detuning_map`, `declare_channel` without
+initial target, and the validation errors of `target`.  The remaining (operation, error)
+pairs are the known findings F2.x, see the counterexamples below. -/
+theorem failed_call_atomic_partial (s : SeqState) (op : Op) (e : Err)
+    (h : (stepRaw s op).err = some e) (he : early op e = true) : (stepRaw s op).st = s := by
+  cases op with
+  | declare name chId init =>
+    cases init with
+    | some qs => simp [early] at he
+    | none =>
+      simp only [stepRaw] at h ⊢
+      repeat' split
+      all_goals first
+        | rfl
+        | (rename_i hh; simp_all [store, done])
+  | configDetMap dmmId w1 w2 =>
+    simp only [stepRaw] at h ⊢
+    repeat' split
+    all_goals first
+      | rfl
+      | (simp_all [store, done])
+  | target qs n =>
+    simp only [stepRaw] at h ⊢
+    obtain ⟨h1, h2⟩ := store_st_of_err h
+    rw [h2]
+    exact targetCore_atomic h1 (by simpa [early] using he)
+  | add p n proto =>
+    simp only [stepRaw] at h ⊢
+    obtain ⟨h1, h2⟩ := store_st_of_err h
+    obtain ⟨h3, h4⟩ := markNonEmpty_st_of_err h1
+    rw [h2, h4]
+    simp only [early, Bool.and_eq_true, bne_iff_ne, ne_eq] at he
+    by_cases g0 : s.measured.isSome = true
+    · rw [if_pos g0]; rfl
+    · rw [if_neg g0] at h3 ⊢
+      cases hc : s.validateChannel n true with
+      | error e1 => rfl
+      | ok c =>
+        simp only [hc] at h3 ⊢
+        by_cases g1 : c.cfg.isDmm = true
+        · rw [if_pos g1]; rfl
+        · rw [if_neg g1] at h3 ⊢
+          exact addCore_atomic h3 he.1 he.2
+  | addDmm p n proto =>
+    simp only [stepRaw] at h ⊢
+    obtain ⟨h1, h2⟩ := store_st_of_err h
+    obtain ⟨h3, h4⟩ := markNonEmpty_st_of_err h1
+    rw [h2, h4]
+    simp only [early, Bool.and_eq_true, bne_iff_ne, ne_eq] at he
+    by_cases g0 : s.measured.isSome = true
+    · rw [if_pos g0]; rfl
+    · rw [if_neg g0] at h3 ⊢
+      cases hc : s.validateChannel n false with
+      | error e1 => rfl
+      | ok c =>
+        simp only [hc] at h3 ⊢
+        by_cases g1 : (!c.cfg.isDmm) = true
+        · rw [if_pos g1]; rfl
+        · rw [if_neg g1] at h3 ⊢
+          exact addCore_atomic h3 he.1 he.2
+  | addEom n dur phase post proto corr fs fe ref =>
+    simp only [stepRaw] at h ⊢
+    obtain ⟨h1, h2⟩ := store_st_of_err h
+    obtain ⟨h3, h4⟩ := markNonEmpty_st_of_err h1
+    rw [h2, h4]
+    simp only [early, Bool.and_eq_true, bne_iff_ne, ne_eq] at he
+    by_cases g0 : s.measured.isSome = true
+    · rw [if_pos g0]; rfl
+    · rw [if_neg g0] at h3 ⊢
+      cases hc : s.validateChannel n false with
+      | error e1 => rfl
+      | ok c =>
+        simp only [hc] at h3 ⊢
+        cases hb : c.eom.getLast? with
+        | none => rfl
+        | some b =>
+          simp only [hb] at h3 ⊢
+          by_cases g1 : b.tf.isSome = true
+          · rw [if_pos g1]; rfl
+          · rw [if_neg g1] at h3 ⊢
+            exact addCore_atomic h3 he.1 he.2
+  | phaseShift phi qs b =>
+    simp only [stepRaw] at h ⊢
+    obtain ⟨h1, h2⟩ := store_st_of_err h
+    rw [h2]; exact (phaseShift_atomic h1).1
+  | measure b =>
+    simp only [stepRaw] at h ⊢
+    obtain ⟨h1, h2⟩ := store_st_of_err h
+    rw [h2]
+    by_cases g0 : s.measured.isSome = true
+    · rw [if_pos g0]; rfl
+    · rw [if_neg g0] at h1 ⊢
+      by_cases g1 : (!measBasisOk s b) = true
+      · rw [if_pos g1]; rfl
+      · rw [if_neg g1] at h1
+        simp [done] at h1
+  | delay _ _ _ => simp [early] at he
+  | align _ _ => simp [early] at he
+  | enableEom _ _ => simp [early] at he
+  | modifyEom _ _ => simp [early] at he
+  | disableEom _ _ => simp [early] at he
+  | getDuration _ _ => simp [early] at he
+  | estimate _ _ _ => simp [early] at he
+  | phaseRef _ _ => simp [early] at he
+
+/-! ### The excluded pairs are genuinely not atomic (known findings F2.x) -/
+
+def exCfg : ChanCfg := { clock := 4, minDur := 16, rise := 120, pjt := 240 }
+def exDev : Device := { chans := [exCfg], dmms := [], reusable := false, maxSeqDur := none }
+
+/-- a pulse with a 240 ns fall time has been added -/
+def sPulse : SeqState :=
+  run (SeqState.init exDev 1)
+    [.declare (.user 0) 0 none, .add { dur := 100, fallStd := 240, ref := 1 } (.user 0) (some .minDelay)]
+
+/-- F2: `delay(3, at_rest=True)` raises (3 < min_duration) but the 240 ns fall-time wait stays. -/
+theorem delay_at_rest_not_atomic :
+    (stepRaw sPulse (.delay 3 (.user 0) true)).err = some .durTooShort ∧
+    (stepRaw sPulse (.delay 3 (.user 0) true)).st ≠ sPulse := by decide +kernel
+
+/-- F2: `declare_channel(initial_target=[])` raises but the channel stays declared. -/
+theorem declare_bad_target_not_atomic :
+    let dev : Device := { chans := [{ exCfg with isLocal := true }], dmms := [], reusable := false,
+                          maxSeqDur := none }
+    (stepRaw (SeqState.init dev 2) (.declare (.user 0) 0 (some []))).err = some .emptyTargets ∧
+    ((stepRaw (SeqState.init dev 2) (.declare (.user 0) 0 (some []))).st.chans.length = 1) := by
+  decide +kernel
+
+/-! ### Non-vacuity of `failed_call_atomic_partial` -/
+example : (stepRaw sPulse (.add { dur := 3, ref := 2 } (.user 0) (some .minDelay))).err
+    = some .durTooShort := by decide +kernel
+example : early (.add { dur := 3, ref := 2 } (.user 0) (some .minDelay)) .durTooShort = true := by
+  decide
+
+end C09
+end Pulser
